@@ -292,6 +292,7 @@ pub struct Nucleo<T: Sync + Send + 'static> {
     // but this lets us avoid some unsafe
     canceled: Arc<AtomicBool>,
     should_notify: Arc<AtomicBool>,
+    notify_decided: Arc<AtomicBool>,
     worker: Arc<Mutex<Worker<T>>>,
     pool: ThreadPool,
     state: State,
@@ -329,6 +330,7 @@ impl<T: Sync + Send + 'static> Nucleo<T> {
         Self {
             canceled: worker.canceled.clone(),
             should_notify: worker.should_notify.clone(),
+            notify_decided: worker.notify_decided.clone(),
             items: worker.items.clone(),
             pool,
             pattern: MultiPattern::new(columns as usize),
@@ -416,16 +418,27 @@ impl<T: Sync + Send + 'static> Nucleo<T> {
             self.worker.lock_arc()
         } else {
             verif_point!(TickBeforeTryLock);
-            let Some(worker) = self.worker.try_lock_arc_for(Duration::from_millis(timeout)) else {
-                verif_point!(TickTryLockFailed);
-                self.should_notify.store(true, Ordering::Release);
-                verif_point!(TickAfterRearm);
-                return Status {
-                    changed: false,
-                    running: true,
-                };
-            };
-            worker
+            match self.worker.try_lock_arc_for(Duration::from_millis(timeout)) {
+                Some(worker) => worker,
+                None => {
+                    verif_point!(TickTryLockFailed);
+                    self.should_notify.store(true, Ordering::SeqCst);
+                    verif_point!(TickAfterRearm);
+                    if !self.notify_decided.load(Ordering::SeqCst) {
+                        // the worker will see `should_notify` when it finishes
+                        return Status {
+                            changed: false,
+                            running: true,
+                        };
+                    }
+                    // The worker has already decided whether to notify, possibly before
+                    // `should_notify` was set again above. Returning `running` now could
+                    // lose the wake-up: nobody would be told about the finished results.
+                    // The worker is about to release the lock, so wait for it and pick
+                    // the results up right away.
+                    self.worker.lock_arc()
+                }
+            }
         };
 
         verif_point!(TickLockTaken);
@@ -448,6 +461,7 @@ impl<T: Sync + Send + 'static> Nucleo<T> {
             if cleared {
                 inner.items = self.items.clone();
             }
+            inner.notify_decided.store(false, Ordering::SeqCst);
             verif_point!(TickBeforeSpawn);
             self.pool
                 .spawn(move || unsafe { inner.run(status, cleared) })
